@@ -122,11 +122,12 @@ def oracle_every(c):
 # ---- (i') recovery, 80% rule, enumerated cells ----------------------------------------------------
 
 def mle_cells(tier, seed):
-    K = 240 if tier == 'quick' else 4000
-    reps = 1
+    """Chunks of K datasets per family; the success counts are pooled over all chunks (and shards) by the harness
+    (POOLED below) and tested against the 80 % rule with an exact binomial test on the totals."""
+    K, chunks = (60, 16) if tier == 'quick' else (250, 32)
     rs = np.random.RandomState((seed * 17 + 3) % (2 ** 32))
     out = []
-    for _ in range(reps):
+    for _ in range(chunks):
         for fam in ('beta', 'gamma', 'student_t', 'loglaplace', 'truncnorm_onesided'):
             out.append({'family': fam, 'K': K, 'seed': int(rs.randint(0, 2 ** 31 - 1))})
     return out
@@ -166,10 +167,29 @@ def oracle_mle(case):
         ok += good
         if not good:
             worst.append('%.1f/%.1f' % (d_true, d_emp))
-    p = vs.binom_pvalue_below(ok, K, 0.8)
-    require(p >= vs.ALPHA_I, '%s: only %d of %d generated datasets are fitted within the bands (required 80%%; binomial p=%.3g); misses %r'
-            % (fam, ok, K, p, worst[:8]), tag='mle-recovery')
-    return {'nontrivial': True, 'classes': ['family:' + fam, 'rate>=0.8' if ok >= 0.8 * K else 'rate<0.8', 'rate>=0.9' if ok >= 0.9 * K else 'rate<0.9']}
+    if case.get('standalone', True) and K >= 1000:
+        # a single large cell (replays of the thorough tier) is tested on its own
+        p = vs.binom_pvalue_below(ok, K, 0.8)
+        require(p >= vs.ALPHA_I, '%s: only %d of %d generated datasets are fitted within the bands (required 80%%; binomial p=%.3g); misses %r'
+                % (fam, ok, K, p, worst[:8]), tag='mle-recovery')
+    return {'nontrivial': True, 'classes': ['family:' + fam, 'rate>=0.8' if ok >= 0.8 * K else 'rate<0.8', 'rate>=0.9' if ok >= 0.9 * K else 'rate<0.9'],
+            'tally': {'mle-recovery:' + fam: [ok, K]}}
+
+
+def oracle_mle_pooled(case):
+    """Replay of a pooled violation: re-run every chunk and test the total."""
+    ok = tot = 0
+    for chunk in case['chunks']:
+        info = oracle_mle(dict(chunk, standalone=False))
+        a, b = list(info['tally'].values())[0]
+        ok += a
+        tot += b
+    p = vs.binom_pvalue_below(ok, tot, 0.8)
+    require(p >= 1e-12, '%s: %d of %d generated datasets are fitted within the bands (required 80%%; binomial p=%.3g)' % (case['key'], ok, tot, p), tag='pooled-rate')
+    return {'nontrivial': True, 'classes': ['pooled-replay']}
+
+
+POOLED = [{'prefix': 'mle-recovery:', 'rate': 0.8, 'alpha': 1e-12, 'replay_sub': 'recovery_mle_80pct_pooled'}]
 
 
 # ---- (ii) closed-form estimators --------------------------------------------------------------------
@@ -206,7 +226,7 @@ def bounded_strategy():
 
     return st.fixed_dictionaries({
         'data': c03.data_strategy(800), 'cls': st.sampled_from(['BetaUnivariate', 'UniformUnivariate', 'TruncatedGaussian', 'TruncatedGaussian']),
-        'user': st.booleans(), 'lo_frac': st.floats(0.0, 2.0), 'hi_frac': st.floats(0.0, 2.0), 'seed': S.SEEDS,
+        'user': st.booleans(), 'lo_frac': st.floats(0.0, 2.0), 'hi_frac': st.floats(0.0, 2.0), 'seed': S.SEEDS, 'zero_bound': st.booleans(),
         'delta': st.floats(-9, 0),
     })
 
@@ -223,6 +243,10 @@ def oracle_bounded(case):
     if user:
         umin = float(np.min(x) - case['lo_frac'] * rng - 1e-6 * rng)
         umax = float(np.max(x) + case['hi_frac'] * rng + 1e-6 * rng)
+        if case.get('zero_bound') and np.min(x) > 0:
+            umin = 0.0
+        elif case.get('zero_bound') and np.max(x) < 0:
+            umax = 0.0
         m = M.uni_class(cls)(minimum=umin, maximum=umax, random_state=case['seed'])
     else:
         m = M.uni_class(cls)(random_state=case['seed'])
@@ -253,7 +277,7 @@ def oracle_bounded(case):
     require(np.all(q >= lo - tol) and np.all(q <= hi + tol), '%s: percent_point leaves the support [%r,%r]: %r' % (cls, lo, hi, q), tag='ppf-outside')
     s = np.asarray(value(m.sample, 200, what='sample'), dtype=float)
     require(np.all(s >= lo - tol) and np.all(s <= hi + tol), '%s: sample leaves the support [%r,%r]: min %r max %r' % (cls, lo, hi, s.min(), s.max()), tag='sample-outside')
-    return {'nontrivial': True, 'classes': ['cls:' + cls, 'user-bounds' if user else 'fitted-bounds']}
+    return {'nontrivial': True, 'classes': ['cls:' + cls, 'user-bounds' if user else 'fitted-bounds'] + (['zero-user-bound'] if user and 0.0 in (umin, umax) else [])}
 
 
 # ---- (iv) KDE is the kernel estimate ---------------------------------------------------------------
@@ -341,6 +365,7 @@ def oracle_kde(case):
 SUBS = [
     Sub('recovery_every_dataset', every_strategy(), oracle_every, quick=480, thorough=16000, use_target=True),
     Sub('recovery_mle_80pct', None, oracle_mle, enumerate_cases=mle_cells),
+    Sub('recovery_mle_80pct_pooled', None, oracle_mle_pooled, enumerate_cases=lambda tier, seed: []),
     Sub('closed_form', closed_strategy(), oracle_closed, quick=800, thorough=16000),
     Sub('bounded_support', bounded_strategy(), oracle_bounded, quick=480, thorough=12000),
     Sub('kde_kernel_estimate', kde_strategy(), oracle_kde, quick=640, thorough=16000),
